@@ -171,8 +171,15 @@ def item(draw, names, rich=True, keys=None, want_zid=None):
     gap = 1 if draw(st.integers(0, 5)) else draw(st.integers(2, 4))
     has_field = zid is not None or longdate is not None
     # The first id of the body must not look like a field the item does not have: without ZID /
-    # long date the first body word is plain (a date / ZID / Pn there *is* the field).
+    # long date the first body word is plain (a date / ZID there *is* the field).
     first = draw(words(names, 1, 6 if rich else 4, first_plain=not has_field, keys=keys))
+    if not has_field and modify is None and draw(st.integers(0, 7)) == 0:
+        # look-alikes that are plain body text in first position: o / x / a time always; Pn where it
+        # cannot be the priority (plain note, priority already written, or not directly after the prefix)
+        pool = ["o", "x", "1234"]
+        if kind == "-" or prio is not None or gap >= 2:
+            pool += ["P1", "P9", "P0"]
+        first[0] = W(draw(st.sampled_from(pool)))
     lines = [{"ind": "", "words": first}]
     if rich:
         nb = draw(st.sampled_from([0, 0, 0, 0, 1, 1, 2, 3]))
@@ -204,14 +211,17 @@ def item(draw, names, rich=True, keys=None, want_zid=None):
             key = names.next("bk")
             vs = [draw(st.sampled_from(PLAIN + ["12", "o", "x", "2024-01-02"])) for _ in range(draw(st.integers(1, 4)))]
             lines.append({"ind": {1: "  * ", 2: "    - ", 3: "      + "}[blevel], "bprop": [key, vs]})
+    if len(lines) > 1 and draw(st.integers(0, 5)) == 0:
+        # a line (not the last one) that ends in a blank: part of the body, verbatim
+        lines[draw(st.integers(0, len(lines) - 2))]["trail"] = draw(st.sampled_from([" ", "  "]))
     return {"kind": kind, "prio": prio, "modify": modify, "zid": zid, "longdate": longdate, "gap": gap,
             "lines": lines}
 
 
 def line_text(ln) -> str:
     if "bprop" in ln:
-        return ln["ind"] + ln["bprop"][0] + ":: " + " ".join(ln["bprop"][1])
-    return ln["ind"] + " ".join(w["s"] for w in ln["words"])
+        return ln["ind"] + ln["bprop"][0] + ":: " + " ".join(ln["bprop"][1]) + ln.get("trail", "")
+    return ln["ind"] + " ".join(w["s"] for w in ln["words"]) + ln.get("trail", "")
 
 
 def line_meta(ln):
